@@ -17,7 +17,7 @@ CLAIMED = {
 
 CLAIMED["C05"] = ("model_checking",
     "TLA+ spec ConnMgr (property monitor) + ConnMgrMC (implementation-shaped manager model) checked by TLC; one behaviour per transition of the bounded model and seeded random histories replayed into the real TransportManager through one or two scripted transports (TCP, TCP+WebSocket); recorded steps validated by TLC against the monitor (and against the model for drift); the same ledger (spec NetDial) validates logs of real 3-node networks over loopback TCP / WebSocket / QUIC driven through the public API",
-    "TLC explores every interleaving of dial requests, transport outcomes, inbound connections, accept results and closures for 2 peers / 3-4 connection ids / several limit configurations on a model transcribed handler by handler from the manager; each transition of the bounded graph (plus wedge probes at quiescence) and long random histories over 3 peers are executed on the real TransportManager and every step is validated by TLC against the property-level ledger: one outcome per attempt, failures name dialed addresses, no silence at quiescence, no wedge, no panic.",
+    "TLC explores every interleaving of dial requests, transport outcomes, inbound connections, accept results and closures for 2 peers / 3-4 connection ids / several limit configurations on a model transcribed handler by handler from the manager; each transition of the bounded graph (plus wedge probes at quiescence) and long random histories over 3 peers are executed on the real TransportManager and every step is validated by TLC against the property-level ledger: one outcome per attempt, failures name dialed addresses, no silence at quiescence, no wedge, no panic. Real tcp worlds also dial live nodes under adversarial forms of their address (unspecified ip, port 0) before the redial probe.",
     "legal scripted transport(s) at the trait boundary (legality of the in-tree TCP/WebSocket/QUIC transports is checked separately by ./check tcplegal, see DESIGN 10.5); one stimulus at a time; small-scope constants; address-shape quantifier covered by the shape driver (see evidence); real-network runs judge at quiescence with 8 s slack",
     "DESIGN.md 4/C05")
 CLAIMED["C06"] = ("model_checking",
@@ -28,7 +28,7 @@ CLAIMED["C06"] = ("model_checking",
 
 CLAIMED["C10"] = ("model_checking",
     "TLA+ spec AddrBook (Impl transcription with nondeterministic minimum eviction + Prop predicates + filter decision table) checked by TLC; TLC behaviours and random histories replayed into the real AddressStore, add_known_address filter and TransportManager::dial; recorded calls validated by TLC",
-    "TLC shows the store transcription refines the property-level insert/list relations for all histories up to 4-5 operations (K=2,3) and that the filter decision table only admits attributable, non-local, TCP-dialable shapes; every transition of the K=2 graph (embedded in the real 64-slot store), random 300-op histories over >64 addresses, every constructible multiaddress shape class and dial/re-score rounds on the real manager are recorded and validated by TLC: bound 64, a displaced record is a minimum, results re-score exactly the dialed addresses and survive rediscovery, dial tries the best addresses in score order within free outbound capacity.",
+    "TLC shows the store transcription refines the property-level insert/list relations for all histories up to 4-5 operations (K=2,3) and that the filter decision table only admits attributable, non-local, TCP-dialable shapes; every transition of the K=2 graph (embedded in the real 64-slot store), random 300-op histories over >64 addresses, every constructible multiaddress shape class and dial/re-score rounds on the real manager are recorded and validated by TLC: bound 64, a displaced record is a minimum, results re-score exactly the dialed addresses and survive rediscovery, dial tries the best addresses in score order within free outbound capacity. Dial-by-address rounds whose negotiated connection the manager rejects must still re-score the address used.",
     "TCP is the only enabled transport in the pinned build; shape classes sampled with seeded instances; small-scope constants in TLC",
     "DESIGN.md 4/C10")
 
@@ -69,7 +69,7 @@ CLAIMED["C14"] = ("model_checking",
   "DESIGN.md 4/C14, 10")
 CLAIMED["C15"] = ("model_checking",
   "TLA+ spec KadQuery (Impl contexts FindNode/GetRecord/GetProviders/PutToTargetPeers + Prop monitor) checked by TLC over every reply/failure/ordering pattern of small networks with liars; per-transition behaviours and random schedules replayed on the real QueryEngine; recorded actions validated by TLC; quiescence-based termination",
-  "never local / never twice / fresh in-flight < alpha / exactly one terminal / result sorted, answered, <= replication and closer learned peers contacted / each item once / stop at quorum are checked by TLC on the model for N<=8 peers and on every recorded step of the real engine (7 start_* entry points, 4-30 peer random networks, two lookups sharing an engine, a real-time stale-request scenario)",
+  "never local / never twice / fresh in-flight < alpha / exactly one terminal / result sorted, answered, <= replication and closer learned peers contacted / each item once / stop at quorum are checked by TLC on the model for N<=8 peers and on every recorded step of the real engine (7 start_* entry points, 4-30 peer random networks, two lookups sharing an engine, a real-time stale-request scenario) Every third failed response is delivered as a decodable reply of the wrong message kind.",
   "distances only as an order (ranks bound to real peer ids by real distance); real 10 s peer timeout scenario discarded when timing assumptions fail; small-scope constants",
   "DESIGN.md 4/C15, 10")
 CLAIMED["C18"] = ("exploration",
